@@ -44,6 +44,11 @@ fn near_miss_names(rng: &mut Rng) -> Vec<String> {
         "wal-\u{0661}\u{0662}\u{0663}\u{0664}\u{0665}\u{0666}\u{0667}\u{0668}\u{0669}\u{0660}".into(),
         // 20 full-width digits (60 bytes)
         format!("wal-{}", "\u{ff10}".repeat(20)),
+        // 24 BYTES, valid UTF-8, with a multi-byte character lying across byte offset 4
+        "wal\u{e9}0000000000000000001".into(),      // 2-byte char at bytes 3..5
+        "wa\u{8a9e}0000000000000000002".into(),     // 3-byte char at bytes 2..5
+        "w\u{1F980}0000000000000000003".into(),     // 4-byte char at bytes 1..5
+        "\u{65e5}\u{672c}\u{8a9e}\u{306e}\u{30e1}\u{30e2}01.txt".into(), // six 3-byte chars + 6 ASCII
         "readme.txt".into(),
         "lock".into(),
         "wal-".into(),
@@ -98,10 +103,11 @@ impl Monitor for C17 {
             ("renumberings_with_gaps_survived", tier.pick(300, 6_000)),
             ("calls_compared_with_clean_twin", tier.pick(40_000, 800_000)),
             ("squatter_cases_entry_untouched", tier.pick(200, 5_000)),
+            ("non_utf8_named_foreign_files_newer_than_live_wal_files", tier.pick(1_000, 20_000)),
         ]
     }
     fn rule(&self) -> String {
-        "case = one generated roll-over/GC-heavy history run on a directory seeded (before the first open and again between restarts) with foreign entries: near-miss names (19/21 digits, non-digit, other case/prefix, number not fitting u64, non-ASCII digits with a 24-byte name, trailing newline, dot-prefixed), ordinary files, and sub-directories / symlinks (to a WAL file, dangling) named exactly like WAL files with numbers outside the live range; at some restarts the valid WAL files are renumbered with gaps; evaluation = one traced path-carrying syscall (open/create/read/write/ftruncate/unlink/rename) whose basename must match ^wal-[0-9]{20}$ and refer to a regular file (the directory itself may be opened read-only), or one foreign entry re-verified (type, size, content hash, link target) or one call compared with a twin log running the same history on a clean directory; one case in eight is a 'squatter' scenario: a symlink to a file outside the directory / a dangling symlink / a sub-directory sits exactly at the next file name the library will create; the call may fail with an I/O error but nothing may be written through, created or replaced; distinct_nontrivial = distinct (foreign name, syscall kind it coexisted with) pairs and distinct path-event kinds x file numbers".into()
+        "case = one generated roll-over/GC-heavy history run on a directory seeded (before the first open and again between restarts) with foreign entries: near-miss names (19/21 digits, non-digit, other case/prefix, number not fitting u64, non-ASCII digits with a 24-byte name, 24-byte names with a multi-byte character across byte 4, names that are not valid UTF-8 (also created after the live WAL files), trailing newline, dot-prefixed), ordinary files, and sub-directories / symlinks (to a WAL file, dangling) named exactly like WAL files with numbers outside the live range; at some restarts the valid WAL files are renumbered with gaps; evaluation = one traced path-carrying syscall (open/create/read/write/ftruncate/unlink/rename) whose basename must match ^wal-[0-9]{20}$ and refer to a regular file (the directory itself may be opened read-only), or one foreign entry re-verified (type, size, content hash, link target) or one call compared with a twin log running the same history on a clean directory; one case in eight is a 'squatter' scenario: a symlink to a file outside the directory / a dangling symlink / a sub-directory sits exactly at the next file name the library will create; the call may fail with an I/O error but nothing may be written through, created or replaced; distinct_nontrivial = distinct (foreign name, syscall kind it coexisted with) pairs and distinct path-event kinds x file numbers".into()
     }
     fn assumptions(&self) -> Vec<String> {
         vec!["sub-directories / symlinks named exactly like WAL files are only placed at numbers the log will never create (below the oldest live file or above 2^40): a name collision with a future file makes create fail with an I/O error, which the statement does not forbid".into()]
@@ -355,6 +361,27 @@ impl Monitor for C17 {
                 if std::fs::write(dir.join(&extra), b"added between restarts").is_ok() {
                     foreign_names.push(extra);
                 }
+                // files whose names are not valid UTF-8, created AFTER the live WAL files (a
+                // directory listing may return them before the WAL files)
+                {
+                    use std::os::unix::ffi::OsStrExt;
+                    let raws: [Vec<u8>; 3] = [
+                        { let mut r = b"wal-0000000000000000000".to_vec(); r.push(0xb0 + (i % 10) as u8); r },
+                        format!("r\u{0}sum-{}", i).into_bytes().into_iter().map(|b| if b == 0 { 0xe9 } else { b }).collect(),
+                        { let mut r = vec![0xff, 0xfe]; r.extend_from_slice(format!("-{}.bak", i).as_bytes()); r },
+                    ];
+                    for raw in raws.iter() {
+                        if rng.chance(1, 2) && std::fs::write(dir.join(std::ffi::OsStr::from_bytes(raw)), b"not utf-8 named, added between restarts").is_ok() {
+                            acc.count("non_utf8_named_foreign_files");
+                            acc.count("non_utf8_named_foreign_files_newer_than_live_wal_files");
+                        }
+                    }
+                    // and a 24-byte valid UTF-8 name with a multi-byte character across byte 4
+                    let nm = format!("wa\u{8a9e}{:019}", i);
+                    if !foreign_names.contains(&nm) && std::fs::write(dir.join(&nm), b"24-byte non-ascii name").is_ok() {
+                        foreign_names.push(nm);
+                    }
+                }
                 expected = foreign_state(&dir, &foreign_names);
                 if let Err(e) = d.sut.reopen(u64::MAX - 3) {
                     acc.violation(format!("C17/open-failed-after-seeding-or-renumbering/{:?}", e), case, json!({"history": d.history_json(200), "renumbered_with_gaps": shift > 0, "foreign_entries": foreign_names}));
@@ -437,12 +464,18 @@ fn squatter_case(ctx: &Ctx, case: u64, acc: &mut Acc) {
             let q = "squat".to_string();
             let o = sut.apply(0, &Op::Create { q: q.clone() });
             calls.push(format!("create_queue -> {:?}", o));
+            // an application retries a failed append: keep calling after the first I/O error
+            let mut failures = 0;
             for k in 1..=12usize {
                 let o = sut.apply(k, &Op::Append { q: q.clone(), pos: None, lens: vec![rng.usize(20_000, 60_000)], chained: false });
                 calls.push(format!("append -> {:?}", o));
                 if o.is_io_err() {
                     acc.count("squatter_calls_failing_with_io_error_(allowed)");
-                    break;
+                    failures += 1;
+                    if failures >= 3 {
+                        break;
+                    }
+                    acc.count("squatter_retries_after_an_io_error");
                 }
             }
             events.extend(crate::shim::take_events(&dir));
